@@ -1,4 +1,6 @@
 """C20 — immutable configuration: values change only through authorised, logged mutations."""
+import contextlib
+import io
 import itertools
 import math
 from fractions import Fraction
@@ -8,14 +10,22 @@ from .common import Check, Violation, cz, cbool, clist, ctuple, cnat, copt, cstr
 
 TYPES = ["Structural", "Regulatory", "Housekeeping", "Conditional", "Dormant"]
 LEVELS = ["Silenced", "Low", "Normal", "High", "Over"]
-REASONS = ["RUser", "RRollback", "RReplication"]
-REASON_STR = {"": 0, "rollback": 1, "replication_mutation": 2}
+REASONS = ["RUser", "RRollback", "RReplication", "RRandom"]
+REASON_STR = {"": 0, "rollback": 1, "replication_mutation": 2, "random_mutation": 3}
+DRAW_DEFAULT = 32           # what the scripted random.random() returns (in 64ths) once its script is exhausted
+UNKNOWN_GENE = "g99"        # never a gene of a case (names are g0..g7)
+MODIFIERS = ["", "why", "inherited", "🧬"]
 CTX_B = [0, 2, 4, 6, 8]
 MAX_GENOMES = 4
 
 
 def gname(i):
     return f"g{i}"
+
+
+def dcode(d):
+    """Gene.description -> integer ("" is what from_dict leaves: -1)."""
+    return -1 if d == "" else int(d[1:])
 
 
 def gid(s):
@@ -124,23 +134,33 @@ class C20(Check):
     RUN = "run_case"
     N_QUICK = 800
     N_THOROUGH = 16000
-    RULE = ("a parent genome of 1..5 genes (names from 8 ids, occasionally a duplicate name in the constructor list) over all 5 gene "
+    RULE = ("a parent genome of 0..5 genes (names from 8 ids, occasionally a duplicate name in the constructor list; one case in "
+            "eight built by Genome.from_dict) over all 5 gene "
             "types x 5 default expression levels, values mostly small integers and about a quarter of the time None / False / True / "
             "'' / '0' / 'None' / 'a' / 0.0 / 1.0 / 0.5 / 0 (initial values, mutate and replication arguments, callback patterns; "
             "values are compared by type and content), allow_mutations both ways, on_mutation in {absent, deny-all, scripted rule lists "
             "approving by gene / exact change / reason / parity of the new value / growth / everything}; 3..12 operations from "
             "{add_gene (new and re-add), mutate, rollback_mutation, set_expression, silence_gene, activate_gene, "
             "replicate(mutations, inherit_expression), express(context)} each addressed to a random genome of the lineage "
-            "(parent, children, grandchildren; at most 4 genomes); mutation_rate = 0. Exhaustive part: every sequence of 2 (quick) / "
-            "3 (thorough) operations from a 15-operation alphabet x 2 allow settings x 3 callbacks on a 2-gene parent whose first "
-            "gene holds None. "
+            "(parent, children, grandchildren; at most 4 genomes); mutation_rate 0 in 55% of the cases, else one of 1, 1/2, 3/4, "
+            "1/4, 1/64, 63/64, 3/2, -1/8 with random.random() scripted per replicate call (numbers k/64 around the rate and around "
+            "1/2; sometimes a script that runs out); silent=False in 35% (output captured), read-only accessors (Gene.get_hash, "
+            "validate, list_genes, diff against every relative, get_value / get_gene / express of an unknown gene, "
+            "get_statistics, export) called before every observation of every genome in 50%, a modifier / reason string on "
+            "30% of the expression calls, callbacks answering with 1/0 or 'yes'/None instead of a bool in 25% of the cases "
+            "with a callback. Exhaustive part: every sequence of 2 (quick) / 3 (thorough) operations from a 16-operation "
+            "alphabet (15 with mutation_rate 0) x 2 allow settings x 3 callbacks on a 2-gene parent whose first gene holds None, "
+            "and again with mutation_rate 1 (x 4 callbacks; sequences containing a replicate in the quick tier, the scripted "
+            "replicate in the thorough tier) and 1/2 (x 2 callbacks, sequences containing the scripted replicate). "
             "non-trivial = at least one mutate/rollback/replicate-with-mutations or re-add reached the gate; distinct by case content")
     LEVEL_TEXT = ("Coq theorems, for all genomes, approval callbacks (arbitrary functions of gene, old value, new value, reason) and "
                   "operation lists of any length over a lineage of any size, about a hand-written model of Genome: with allow_mutations "
                   "off every stored value is the replay of the callback-approved log entries (so nothing changes, hash included, when "
                   "nothing is approved), every refused mutate/rollback/replication mutation appends an unapproved log entry and the log "
                   "is append-only, operations addressed to one genome never change another (replicate only appends the child), a child "
-                  "has the parent's genes and differs only where a replication mutation was authorised and logged, express is exactly "
+                  "has the parent's genes and differs only where a specified or (mutation_rate > 0, whatever random.random() returns) "
+                  "random replication mutation was authorised and logged, the random-mutation loop reaches the child only through "
+                  "mutate, express is exactly "
                   "the non-silenced non-dormant genes with conditional ones only when named, and rollback re-applies the value preceding "
                   "the last approved mutation and is never a silent no-op once an approved mutation of the gene is logged (values are "
                   "None / bool / int / float / str, None being a value and not 'nothing recorded'). The model is tied to the code by evaluating it in Coq on every generated lineage history "
@@ -149,7 +169,8 @@ class C20(Check):
     LEVEL_NOTE = ("Trusts: Coq kernel+VM; the correspondence harness; names/descriptions modelled as integers, values as "
                   "None/bool/int/finite float/str; md5/json hash "
                   "modelled as the sorted value map (compared for equality only); the callback is a pure function of the proposed "
-                  "change; mutation_rate = 0. Axioms: none (Print Assumptions: closed).")
+                  "change; random.random() scripted to k/64 and mutation_rate k/64, the float arithmetic of the random-mutation "
+                  "loop modelled by Coq.Floats.SpecFloat (binary64, round to nearest even). Axioms: none (Print Assumptions: closed).")
     TECHNIQUE = "Coq proof by induction over operation lists with a log-replay invariant + vm_compute correspondence against Genome"
     TRUSTED = ["modelled not verified: gene names and descriptions are integers; values are None, booleans, integers, finite "
                "floats (exact fraction; no nan/inf/-0.0) and strings, compared by type and content (containers and other "
@@ -158,9 +179,13 @@ class C20(Check):
                "json renders the modelled values injectively)",
                "_genes and _expression are modelled as one association list (the harness checks on every observation that both "
                "dicts have the same keys in the same order)",
-               "the approval callback is a deterministic, side-effect-free function of (gene, original value, new value, reason)"]
-    ASSUMPTIONS = ["mutation_rate = 0 (random mutations during replication are outside the property)",
-                   "allow_mutations / on_mutation attributes are not reassigned after construction",
+               "the approval callback is a deterministic, side-effect-free function of (gene, original value, new value, reason)",
+               "random mutations during replication: random.random is replaced by a script of numbers k/64 for the duration "
+               "of each replicate call and mutation_rate is k/64 (so `random.random() < rate` is exact); `value + value * 0.1 * "
+               "(random.random() - 0.5)` is evaluated in the model by Coq's Gallina specification of IEEE binary64 "
+               "(Coq.Floats.SpecFloat; no primitive floats); results that are not finite are not generated; the monitor takes "
+               "the calls of Genome.mutate made on the child while replicate runs (recorded by a wrapper) as the attempted mutations"]
+    ASSUMPTIONS = ["allow_mutations / on_mutation / mutation_rate attributes are not reassigned after construction",
                    "a refused re-add (add_gene of an existing name) returns False without a log entry: noted, not demanded (DESIGN reading)"]
 
     # -- generation --------------------------------------------------------
@@ -186,11 +211,11 @@ class C20(Check):
         for _ in range(rng.choice([1, 1, 2, 3])):
             j = rng.random()
             if j < 0.3:
-                rules.append(["match", rng.choice(names), None, None, None])
+                rules.append(["match", rng.choice(names or [0]), None, None, None])
             elif j < 0.45:
-                rules.append(["match", rng.choice(names), None, [self._rand_value(rng, -2, 6)], None])
+                rules.append(["match", rng.choice(names or [0]), None, [self._rand_value(rng, -2, 6)], None])
             elif j < 0.6:
-                rules.append(["match", None, None, None, rng.randrange(3)])
+                rules.append(["match", None, None, None, rng.randrange(4)])
             elif j < 0.75:
                 rules.append(["newmod", 2, rng.randrange(2)])
             elif j < 0.87:
@@ -198,44 +223,57 @@ class C20(Check):
             elif j < 0.95:
                 rules.append(["match", None, None, None, None])
             else:
-                rules.append(["match", rng.choice(names), [self._rand_value(rng, -3, 9)], [self._rand_value(rng, -2, 6)],
-                              rng.randrange(3)])
+                rules.append(["match", rng.choice(names or [0]), [self._rand_value(rng, -3, 9)], [self._rand_value(rng, -2, 6)],
+                              rng.randrange(4)])
         return rules
+
+    @staticmethod
+    def _rand_draws(rng, ngenes):
+        """What random.random() will return during one replicate, in 64ths: two numbers per gene at most are used
+        (the rate test, then the perturbation); sometimes the script is too short (then 32/64 is returned)."""
+        k = rng.choice([0, ngenes, 2 * ngenes, 2 * ngenes + 2, 2 * ngenes + 2, 2 * ngenes + 2])
+        return [rng.choice([0, 0, 1, 15, 16, 31, 32, 33, 47, 48, 63, 63, rng.randrange(64)]) for _ in range(k)]
 
     def gen_cases(self, rng, n):
         out = []
         for _ in range(n):
-            ng = rng.choice([1, 2, 2, 3, 3, 4, 5])
+            ng = rng.choice([0, 1, 2, 2, 3, 3, 3, 4, 4, 5, 5])
             names = rng.sample(range(8), ng)
+            from_dict = ng > 0 and rng.random() < 0.12
             genes = [self._rand_gene(rng, x) for x in names]
-            if rng.random() < 0.1:
+            if from_dict:
+                genes = [[x[0], x[1], 0, -1, 0, 2] for x in genes]
+            elif genes and rng.random() < 0.1:
                 genes.insert(rng.randrange(len(genes) + 1), self._rand_gene(rng, rng.choice(names)))
             allow = rng.random() < 0.3
             oracle = self._rand_oracle(rng, names)
+            # mutation_rate in 64ths: mostly 0 (the default); else certain, likely, rare, out of range
+            rate64 = 0 if rng.random() < 0.55 else rng.choice([64, 64, 64, 32, 32, 48, 16, 1, 63, 96, -8])
             nops = rng.choice([3, 5, 6, 8, 8, 9, 10, 12])
             ops, count, known, touched = [], 1, set(names), {0: []}
             for _ in range(nops):
                 tgt = rng.randrange(count) if rng.random() < 0.6 else count - 1
-                nm = rng.choice(sorted(known)) if rng.random() < 0.88 else rng.randrange(8)
+                nm = rng.choice(sorted(known)) if known and rng.random() < 0.88 else rng.randrange(8)
                 k = rng.random()
-                if k < 0.30:
+                mod = [rng.randrange(len(MODIFIERS))] if rng.random() < 0.3 else []
+                if k < 0.28:
                     ops.append([tgt, "mutate", nm, self._rand_value(rng, -2, 6)])
                     touched[tgt].append(nm)
-                elif k < 0.46:
+                elif k < 0.43:
                     # mostly roll back genes this genome tried to mutate (or inherited a mutation of)
                     if touched[tgt] and rng.random() < 0.7:
                         nm = rng.choice(touched[tgt])
                     ops.append([tgt, "rollback", nm])
-                elif k < 0.56:
+                elif k < 0.54:
                     g = self._rand_gene(rng, nm if rng.random() < 0.55 else rng.randrange(8))
                     known.add(g[0])
                     ops.append([tgt, "add", g])
-                elif k < 0.62:
-                    ops.append([tgt, "setexpr", nm, rng.randrange(5)])
-                elif k < 0.68:
-                    ops.append([tgt, "silence", nm])
-                elif k < 0.73:
-                    ops.append([tgt, "activate", nm])
+                elif k < 0.60:
+                    ops.append([tgt, "setexpr", nm, rng.randrange(5)] + mod)
+                elif k < 0.66:
+                    ops.append([tgt, "silence", nm] + mod)
+                elif k < 0.71:
+                    ops.append([tgt, "activate", nm] + mod)
                 elif k < 0.87 and count < MAX_GENOMES:
                     pool = sorted(known) + [rng.randrange(8)]
                     ks = rng.sample(pool, min(len(pool), rng.choice([0, 1, 1, 2, 3])))
@@ -244,12 +282,28 @@ class C20(Check):
                         if x not in seen:
                             seen.add(x)
                             muts.append([x, self._rand_value(rng, -2, 6)])
-                    ops.append([tgt, "replicate", muts, int(rng.random() < 0.75)])
-                    touched[count] = [m[0] for m in muts]
+                    rep = [tgt, "replicate", muts, int(rng.random() < 0.75)]
+                    if rate64 > 0 or rng.random() < 0.1:
+                        rep.append(self._rand_draws(rng, len(known)))
+                    ops.append(rep)
+                    # random mutations may touch any gene of the child: roll those back too
+                    touched[count] = [m[0] for m in muts] + (sorted(known) if rate64 > 0 else [])
                     count += 1
                 else:
                     ops.append([tgt, "express", sorted(rng.sample(range(8), rng.choice([0, 1, 2, 4])))])
-            out.append({"allow": allow, "oracle": oracle, "genes": genes, "ops": ops})
+            case = {"allow": allow, "oracle": oracle, "genes": genes, "ops": ops}
+            # the knobs below are left out when they have their default value (so older cases mean the same)
+            if rate64:
+                case["rate64"] = rate64
+            if rng.random() < 0.35:
+                case["silent"] = False
+            if rng.random() < 0.5:
+                case["probes"] = True
+            if from_dict:
+                case["from_dict"] = True
+            if oracle is not None and rng.random() < 0.25:
+                case["cbret"] = rng.choice([1, 2])
+            out.append(case)
         return out
 
     def exhaustive_cases(self):
@@ -257,29 +311,68 @@ class C20(Check):
         alphabet = [["mutate", 0, 2], ["mutate", 1, 3], ["mutate", 2, 3], ["rollback", 0], ["rollback", 1],
                     ["mutate", 0, False], ["mutate", 1, None],
                     ["add", [0, 7, 4, 2, 0, 0]], ["add", [2, 4, 1, 3, 0, 3]], ["silence", 0], ["activate", 0],
-                    ["setexpr", 1, 3], ["replicate", [[0, 4], [1, 2]], 1], ["replicate", [], 0], ["express", [1]]]
+                    ["setexpr", 1, 3], ["replicate", [[0, 4], [1, 2]], 1], ["replicate", [], 0], ["express", [1]],
+                    ["replicate", [[1, 7]], 1, [0, 0, 0, 63, 40, 16]]]
         depth = 2 if self.tier == "quick" else 3
         out = []
-        for allow in (False, True):
-            for oracle in (None, [["match", 0, None, None, None]], [["match", None, None, None, None]]):
-                for seq in itertools.product(alphabet, repeat=depth):
-                    ops, count = [], 1
-                    for o in seq:
-                        # address the newest genome, so children get exercised too
-                        ops.append([count - 1] + list(o))
-                        if o[0] == "replicate":
-                            count += 1
-                    out.append({"allow": allow, "oracle": oracle, "genes": genes, "ops": ops})
+        for rate64 in (0, 64, 32):
+            for allow in (False, True):
+                for oracle in (None, [["match", 0, None, None, None]], [["match", None, None, None, None]],
+                               [["match", None, None, None, 3]]):
+                    by_reason = oracle is not None and oracle[0][4] == 3
+                    if (rate64 == 0 and by_reason) or (rate64 == 32 and not (oracle is None or by_reason)):
+                        continue
+                    # with mutation_rate 0 a script for random.random() is never read
+                    for seq in itertools.product(alphabet if rate64 else alphabet[:-1], repeat=depth):
+                        # mutation_rate matters to replicate only: sequences with a replicate (quick), with the
+                        # scripted replicate (thorough, and always for rate 1/2 where the script decides)
+                        if rate64 != 0 and not any(o[0] == "replicate" for o in seq):
+                            continue
+                        if (rate64 == 32 or (rate64 and depth > 2)) and not any(len(o) > 3 for o in seq):
+                            continue
+                        ops, count = [], 1
+                        for o in seq:
+                            # address the newest genome, so children get exercised too
+                            ops.append([count - 1] + list(o))
+                            if o[0] == "replicate":
+                                count += 1
+                        case = {"allow": allow, "oracle": oracle, "genes": genes, "ops": ops}
+                        if rate64:
+                            case["rate64"] = rate64
+                        out.append(case)
         return out
 
     # -- implementation ----------------------------------------------------
-    def _snap(self, g):
+    @staticmethod
+    def _probe(g, world):
+        """Read-only public accessors the property says nothing about except that configuration values change only
+        through authorised mutations: called (in cases with probes on) before every observation of every genome.
+        Their results are not judged; whatever they might do to the state shows up in the observations that follow
+        (the model knows nothing of them)."""
+        for gg in list(g._genes.values()):
+            gg.get_hash()
+        g.validate()
+        g.list_genes()
+        g.diff(g)
+        for w in world:
+            if w is not g:
+                g.diff(w)
+        g.get_value(UNKNOWN_GENE)
+        g.get_value(UNKNOWN_GENE, GV_DEFAULT)
+        g.get_gene(UNKNOWN_GENE)
+        g.get_statistics()
+        g.export()
+        g.express({UNKNOWN_GENE: True})
+
+    def _snap(self, g, world=(), probes=False):
         """Everything observable about one Genome, as plain data (never raises on odd states)."""
         from operon_ai.state import genome as GM
         tcode = {t: i for i, t in enumerate(GM.GeneType)}
+        if probes:
+            self._probe(g, world)
         genes, levels, bad = [], [], []
         for k, gg in g._genes.items():
-            genes.append([gid(k), T(gg.value), tcode[gg.gene_type], int(gg.description[1:]), int(bool(gg.required)),
+            genes.append([gid(k), T(gg.value), tcode[gg.gene_type], dcode(gg.description), int(bool(gg.required)),
                           int(gg.default_expression.value)])
             if gg.name != k:
                 bad.append(f"key {k} holds gene named {gg.name}")
@@ -295,7 +388,7 @@ class C20(Check):
         if list(g._expression) != list(g._genes):
             bad.append(f"_genes keys {list(g._genes)} != _expression keys {list(g._expression)}")
         ex = g.export()
-        exg = [[gid(d["name"]), T(d["value"]), tcode[GM.GeneType(d["gene_type"])], int(d["description"][1:]),
+        exg = [[gid(d["name"]), T(d["value"]), tcode[GM.GeneType(d["gene_type"])], dcode(d["description"]),
                 int(bool(d["required"])), int(d["default_expression"])] for d in ex["genes"]]
         exl = [int(v["level"]) for v in ex["expression"].values()]
         if exg != genes or (not bad and exl != levels):
@@ -324,12 +417,22 @@ class C20(Check):
         return rows
 
     def run_impl(self, case):
+        # everything the Genome prints (silent=False cases) goes to a buffer; printing is not an observation
+        with contextlib.redirect_stdout(io.StringIO()):
+            return self._run_impl(case)
+
+    def _run_impl(self, case):
+        import random as random_module
         from operon_ai.state import genome as GM
         types, levels = list(GM.GeneType), {l.value: l for l in GM.ExpressionLevel}
         calls = []
+        rate64 = case.get("rate64", 0)
+        silent = bool(case.get("silent", True))
+        probes = bool(case.get("probes", False))
+        cbret = case.get("cbret", 0)
 
         def mkgene(x):
-            return GM.Gene(name=gname(x[0]), value=x[1], gene_type=types[x[2]], description=f"d{x[3]}",
+            return GM.Gene(name=gname(x[0]), value=x[1], gene_type=types[x[2]], description="" if x[3] == -1 else f"d{x[3]}",
                            required=bool(x[4]), default_expression=levels[x[5]])
 
         oracle = case["oracle"]
@@ -338,6 +441,11 @@ class C20(Check):
             n, r = gid(m.gene_name), REASON_STR.get(m.reason, 9)
             ok = oracle_says(oracle, n, T(m.original_value), T(m.new_value), r)
             calls.append([n, T(m.original_value), T(m.new_value), r, int(ok)])
+            # a callback may answer with any truthy / falsy object
+            if cbret == 1:
+                return 1 if ok else 0
+            if cbret == 2:
+                return "yes" if ok else None
             return ok
 
         hashes = {}
@@ -357,9 +465,17 @@ class C20(Check):
                 rows.append([h, ph, s["generation"], s["total"], s["mcount"], s["approved"]] + s["levels"])
             return rows
 
-        world = [GM.Genome(genes=[mkgene(x) for x in case["genes"]], allow_mutations=case["allow"],
-                           mutation_rate=0.0, on_mutation=on_mutation if oracle is not None else None, silent=True)]
-        snaps = [self._snap(g) for g in world]
+        kw = dict(allow_mutations=case["allow"], mutation_rate=rate64 / 64.0,
+                  on_mutation=on_mutation if oracle is not None else None, silent=silent)
+        if case.get("from_dict"):
+            # the other public constructor: plain structural genes from a name -> value dict
+            for x in case["genes"]:
+                if x[2:] != [0, -1, 0, 2]:
+                    raise ValueError("a from_dict case holds a gene that from_dict cannot build")
+            world = [GM.Genome.from_dict({gname(x[0]): x[1] for x in case["genes"]}, **kw)]
+        else:
+            world = [GM.Genome(genes=[mkgene(x) for x in case["genes"]], **kw)]
+        snaps = [self._snap(g, world, probes) for g in world]
         obs = self._detail(snaps[0], 0) + light(snaps)
         steps = [{"init": True, "after": snaps, "calls": list(calls)}]
         for op in case["ops"]:
@@ -373,6 +489,7 @@ class C20(Check):
                 continue
             g = world[i]
             ret = None
+            attempts = []
             if kind == "add":
                 ret = g.add_gene(mkgene(op[2]))
             elif kind == "mutate":
@@ -380,23 +497,45 @@ class C20(Check):
             elif kind == "rollback":
                 ret = g.rollback_mutation(gname(op[2]))
             elif kind == "setexpr":
-                ret = g.set_expression(gname(op[2]), levels[op[3]])
+                ret = (g.set_expression(gname(op[2]), levels[op[3]], MODIFIERS[op[4]]) if len(op) > 4
+                       else g.set_expression(gname(op[2]), levels[op[3]]))
             elif kind == "silence":
-                ret = g.silence_gene(gname(op[2]))
+                ret = g.silence_gene(gname(op[2]), MODIFIERS[op[3]]) if len(op) > 3 else g.silence_gene(gname(op[2]))
             elif kind == "activate":
-                ret = g.activate_gene(gname(op[2]))
+                ret = g.activate_gene(gname(op[2]), MODIFIERS[op[3]]) if len(op) > 3 else g.activate_gene(gname(op[2]))
             elif kind == "replicate":
-                child = g.replicate(mutations={gname(n): v for n, v in op[2]}, inherit_expression=bool(op[3]))
+                # random.random() is scripted by the case (numbers k/64; 32/64 once the script is exhausted), and every
+                # call of mutate made while replicate runs is recorded: those are the attempted mutations of the child
+                script = list(op[4]) if len(op) > 4 else []
+                orig_random, orig_mutate = random_module.random, GM.Genome.mutate
+
+                def scripted_random():
+                    return (script.pop(0) if script else DRAW_DEFAULT) / 64.0
+
+                def recording_mutate(self_, *a, **k):
+                    r = orig_mutate(self_, *a, **k)
+                    name = a[0] if a else k.get("gene_name")
+                    value = a[1] if len(a) > 1 else k.get("new_value")
+                    reason = a[2] if len(a) > 2 else k.get("reason", "")
+                    attempts.append((self_, name, value, reason))
+                    return r
+
+                random_module.random, GM.Genome.mutate = scripted_random, recording_mutate
+                try:
+                    child = g.replicate(mutations={gname(n): v for n, v in op[2]}, inherit_expression=bool(op[3]))
+                finally:
+                    random_module.random, GM.Genome.mutate = orig_random, orig_mutate
                 if not isinstance(child, GM.Genome) or any(child is w for w in world):
                     raise RuntimeError("replicate did not return a fresh Genome")
                 world.append(child)
                 ret = len(world) - 1
+                attempts = [[gid(nm), T(v), REASON_STR.get(r, 9)] for (who, nm, v, r) in attempts if who is child]
             elif kind == "express":
                 cfg = g.express({gname(n): True for n in op[2]} if op[2] else None)
                 ret = [[gid(k), T(v)] for k, v in cfg.items()]
             else:
                 raise ValueError(kind)
-            snaps = [self._snap(w) for w in world]
+            snaps = [self._snap(w, world, probes) for w in world]
             if kind == "replicate":
                 obs.append([1, ret])
             elif kind == "express":
@@ -409,7 +548,8 @@ class C20(Check):
             if kind == "replicate":
                 obs += self._detail(snaps[-1], 0)
             obs += light(snaps)
-            steps.append({"op": op, "ret": ret, "before": before, "after": snaps, "calls": list(calls)})
+            steps.append({"op": op, "ret": ret, "before": before, "after": snaps, "calls": list(calls),
+                          "attempts": attempts})
         for s in snaps:
             obs += self._detail(s, 0)
         return obs, {"steps": steps}
@@ -445,14 +585,15 @@ class C20(Check):
             elif k == "activate":
                 t = f"OActivate {cz(o[2])}"
             elif k == "replicate":
-                t = f"OReplicate {clist([ctuple(cz(n), cval(v)) for n, v in o[2]])} {cbool(o[3])}"
+                t = (f"OReplicate {clist([ctuple(cz(n), cval(v)) for n, v in o[2]])} {cbool(o[3])} "
+                     f"{clist([cz(k) for k in (o[4] if len(o) > 4 else [])])}")
             else:
                 t = f"OExpress {clist([cz(n) for n in o[2]])}"
             return ctuple(cnat(i), t)
 
         orc = "None" if case["oracle"] is None else f"(Some {clist([rule(q) for q in case['oracle']])})"
         # the type annotation keeps `None` / `[]` typeable when a whole shard has no callback or no operations
-        return "(" + ctuple(cbool(case["allow"]), orc, clist([gene(x) for x in case["genes"]]),
+        return "(" + ctuple(cbool(case["allow"]), orc, cz(case.get("rate64", 0)), clist([gene(x) for x in case["genes"]]),
                             clist([op(o) for o in case["ops"]])) + " : case)"
 
     # -- the property, on the implementation's trace ------------------------
@@ -605,6 +746,17 @@ class C20(Check):
                         prev[j][n] = vc[n]
                         napproved[j] += 1
                         vc[n] = v
+                # random mutations (mutation_rate > 0): the calls of mutate(.., "random_mutation") made on the child
+                # while replicate ran are the attempts; each needs the same authorisation and is logged
+                for n, v, r in st.get("attempts", []):
+                    if r != 3 or n not in vc:
+                        continue
+                    authorised = allow or oracle_says(oracle, n, vc[n], v, 3)
+                    explog.append([n, vc[n], v, 3, int(authorised)])
+                    if authorised:
+                        prev[j][n] = vc[n]
+                        napproved[j] += 1
+                        vc[n] = v
                 if [x[0] for x in c["genes"]] != [x[0] for x in b["genes"]]:
                     return Violation("C20/child-gene-set", f"step {k}: child genes {c['genes']} vs parent {b['genes']}")
                 vch = self._vmap(c)
@@ -645,6 +797,14 @@ class C20(Check):
     def classify(self, case, obs, trace):
         ks = [f"allow={case['allow']}", "oracle=" + ("none" if case["oracle"] is None else "deny" if not case["oracle"] else "rules"),
               f"ops={len(case['ops'])}"]
+        r64 = case.get("rate64", 0)
+        ks.append("mutation_rate=" + ("0" if r64 == 0 else "negative" if r64 < 0 else "1.0" if r64 == 64 else ">1" if r64 > 64
+                                      else "in(0,1)"))
+        ks.append("silent=" + str(bool(case.get("silent", True))))
+        ks.append("accessor-probes=" + str(bool(case.get("probes", False))))
+        ks.append("constructor=" + ("from_dict" if case.get("from_dict") else "genes" if case["genes"] else "empty"))
+        if case["oracle"] is not None:
+            ks.append("callback-returns=" + ["bool", "int", "str/None"][case.get("cbret", 0)])
         kinds = {"n": "None", "b": "bool", "i": "int", "f": "float", "s": "str"}
         for st in trace.get("steps", []):
             for s in st.get("after", []):
@@ -666,6 +826,10 @@ class C20(Check):
             if kind == "replicate":
                 lg = st["after"][-1]["log"]
                 tag += "/" + ("nomut" if not lg else "+".join(sorted({"applied" if e[4] else "refused" for e in lg})))
+                for e in lg:
+                    if e[3] == 3:
+                        ks.append("random-mutation-" + ("applied" if e[4] else "refused") + ":" + kinds.get(e[1][0], "?")
+                                  + ("=same" if e[1] == e[2] else ""))
             ks.append(tag + ("@child" if op[0] > 0 else "@root"))
             ks.append(f"genomes={len(st['after'])}")
         return sorted(set(ks))
